@@ -8,6 +8,11 @@
  *    realloc can stay or move, and model and implementation see the same answers).
  *    Calls that concern the table's own storage (never an arena address) go to the real
  *    allocator, as does everything while a library scenario runs.
+ *    A request for more than a slot holds (any size up to 2^64-1: 2^31, 2^32+4096, ...) is
+ *    answered like any other - the slot's address, the requested size noted as the block's
+ *    size - but only the first LV_SLOTSZ bytes exist.  The tracker never touches a block's
+ *    bytes (only its dump does: scripts do not dump while such a block is live), so sizes of
+ *    4 GiB and more cost nothing here.  strdup is the exception: it does write the bytes.
  * The same renaming is active where the harness uses the MALLOC/CALLOC/REALLOC/FREE/STRDUP
  * macros, so their non-tracking forms (DEBUG < DEBUG_MEM builds) hit the scripted allocator
  * too and the live sets of the two expansions can be compared.
@@ -54,21 +59,22 @@ static long lv_slot_of(const void *p)
     if ((c - &lv_arena[0][0]) % LV_SLOTSZ) return -1;
     return (long) ((c - &lv_arena[0][0]) / LV_SLOTSZ);
 }
+#define LV_BACKED(size) ((size) > LV_SLOTSZ ? (size_t) LV_SLOTSZ : (size_t) (size))    /* the bytes that really exist */
 static void *lv_take(size_t size, int zero)
 {
     long a = lv_ans;
     lv_ans = -1;
     /* an insane script (e.g. an answer that is still live): flag it and hand out the spare
      * slot 0 so that the library does not take its fatal out-of-memory exit */
-    if (a < 0 || a > LV_NSLOT || size > LV_SLOTSZ) { lv_insane = 1; return lv_arena[0]; }
+    if (a < 0 || a > LV_NSLOT) { lv_insane = 1; return lv_arena[0]; }
     if (a == 0) return NULL;
     if (lv_islive[a]) { lv_insane = 1; return lv_arena[0]; }
     lv_islive[a] = 1;
     lv_sz[a] = size;
     if (a > lv_hi) lv_hi = a;
     ASAN_POISON_MEMORY_REGION(lv_arena[a], LV_SLOTSZ);
-    ASAN_UNPOISON_MEMORY_REGION(lv_arena[a], size);
-    memset(lv_arena[a], zero ? 0 : 0xA5, size);
+    ASAN_UNPOISON_MEMORY_REGION(lv_arena[a], LV_BACKED(size));
+    memset(lv_arena[a], zero ? 0 : 0xA5, LV_BACKED(size));
     return lv_arena[a];
 }
 static void lv_drop(long a)
@@ -102,17 +108,17 @@ static void *lv_realloc(void *p, size_t size)
     if (!lv_islive[a]) { lv_badfree = 1; lv_ans = -1; return p; }
     b = lv_ans;
     lv_ans = -1;
-    if (b < 0 || b > LV_NSLOT || size > LV_SLOTSZ || (b != a && b != 0 && lv_islive[b])) { lv_insane = 1; return p; }
+    if (b < 0 || b > LV_NSLOT || (b != a && b != 0 && lv_islive[b])) { lv_insane = 1; return p; }
     if (b == 0) return NULL;
-    n = (lv_sz[a] < size) ? lv_sz[a] : size;
+    n = LV_BACKED((lv_sz[a] < size) ? lv_sz[a] : size);
     memcpy(keep, lv_arena[a], n);
     lv_drop(a);
     lv_islive[b] = 1;
     lv_sz[b] = size;
     if (b > lv_hi) lv_hi = b;
     ASAN_POISON_MEMORY_REGION(lv_arena[b], LV_SLOTSZ);
-    ASAN_UNPOISON_MEMORY_REGION(lv_arena[b], size);
-    memset(lv_arena[b], 0xA5, size);
+    ASAN_UNPOISON_MEMORY_REGION(lv_arena[b], LV_BACKED(size));
+    memset(lv_arena[b], 0xA5, LV_BACKED(size));
     memcpy(lv_arena[b], keep, n);
     return lv_arena[b];
 }
@@ -122,6 +128,7 @@ static char *lv_strdup(const char *s)
     char *d;
     if (!lv_scripted) return strdup(s);
     n = strlen(s) + 1;            /* a NULL argument crashes here, like strdup */
+    if (n > LV_SLOTSZ) { lv_insane = 1; return (char *) lv_arena[0]; }     /* a copy needs its bytes */
     d = (char *) lv_take(n, 0);
     if (d) memcpy(d, s, n);
     return d;
